@@ -219,7 +219,8 @@ package crypto
 // g2vecValid(bytes, n): the n*96 bytes are the canonical encodings of n points of G2
 // vssInv: representation invariant of a plain Feldman VSS instance
 //@ pred vssShape(s) = s != nil && commonOK(s.dkgCommon) && obj(s.dkgCommon) != obj(s) && s.dealerIndex < s.size
-//@ pred vssInv(s) = vssShape(s) && (s.vAReceived ==> len(s.vA) == s.threshold+1 && len(s.y) == s.size) && (s.validKey ==> s.vAReceived && s.xReceived) && (s.running && s.myIndex == s.dealerIndex ==> len(s.a) == s.threshold+1)
+//@ pred vssCore(s) = vssShape(s) && (s.validKey ==> s.vAReceived && s.xReceived && len(s.vA) == s.threshold+1 && len(s.y) == s.size) && (len(s.y) == s.size && s.myIndex != s.dealerIndex ==> len(s.vA) == s.threshold+1)
+//@ pred vssInv(s) = vssCore(s) && (s.running && s.myIndex == s.dealerIndex ==> len(s.a) == s.threshold+1)
 
 //@ func (*feldmanVSSstate).init mode int props C10
 //@ requires s != nil && s.dkgCommon != nil && obj(s.dkgCommon) != obj(s)
@@ -244,14 +245,15 @@ package crypto
 //@ assigns *s, s.running, s.processor.nPrivate, s.processor.nBroadcast, s.processor.sentComplaint[:], s.processor.sentAnswer[:], s.processor.sentVector[:]
 //@ ensures [reject-running] old(s.running) ==> iserr(result, *dkgInvalidStateTransitionError) && nothingAssigned()
 //@ ensures [started] !old(s.running) && result == nil ==> s.running
+//@ ensures [failed-start-leaves-idle] !old(s.running) && result != nil ==> !s.running
 //@ ensures [dealer-ready] s.running && s.myIndex == s.dealerIndex ==> len(s.a) == s.threshold+1
 //@ ensures [inv] vssInv(s)
 
 //@ func (*feldmanVSSstate).generateShares mode int props C06 C09
-//@ requires vssInv(s) && s.running
+//@ requires vssCore(s) && s.running
 //@ assigns *s, s.processor.nPrivate, s.processor.nBroadcast, s.processor.sentComplaint[:], s.processor.sentAnswer[:], s.processor.sentVector[:]
 //@ ensures [ok] result == nil ==> s.vAReceived && s.xReceived && s.validKey && len(s.vA) == s.threshold+1 && len(s.y) == s.size && len(s.a) == s.threshold+1
-//@ ensures [error] result != nil ==> unchanged(s.vAReceived) && unchanged(s.xReceived) && unchanged(s.validKey) && vssInv(s)
+//@ ensures [error] result != nil ==> unchanged(s.vAReceived) && unchanged(s.xReceived) && unchanged(s.validKey) && unchanged(s.running) && vssCore(s)
 //@ ensures unchanged(s.dkgCommon) && unchanged(s.dealerIndex)
 //@ loop 1 invariant 0 <= i && i <= s.threshold+1 && len(s.vA) == s.threshold+1 && len(s.a) == s.threshold+1 && len(s.y) == s.size && fresh(s.vA) && fresh(s.a) && fresh(s.y) && vssShape(s) && unchanged(s.dkgCommon) && unchanged(s.dealerIndex)
 //@ loop 1 assigns s.vA[:]
@@ -292,13 +294,13 @@ package crypto
 //@ ensures [inv] vssInv(s)
 
 //@ func (*feldmanVSSstate).receiveShare mode int props C08 C09
-//@ requires vssInv(s) && s.running
+//@ requires vssInv(s) && s.running && origin != s.myIndex
 //@ assigns *s, s.processor.nFlag
 //@ ensures [inv] vssInv(s) && unchanged(s.dkgCommon) && unchanged(s.dealerIndex)
 //@ ensures [malformed-share-invalidates] old(!s.xReceived && origin == s.dealerIndex && (len(data) != 33 || data[0] != 0)) ==> !s.validKey
 
 //@ func (*feldmanVSSstate).receiveVerifVector mode int props C08 C09
-//@ requires vssInv(s) && s.running
+//@ requires vssInv(s) && s.running && origin != s.myIndex
 //@ assigns *s, s.processor.nFlag, s.processor.nDisq
 //@ ensures [inv] vssInv(s) && unchanged(s.dkgCommon) && unchanged(s.dealerIndex)
 //@ ensures [bad-size-invalidates] old(!s.vAReceived && origin == s.dealerIndex && len(data) != 96*(s.threshold+1)) ==> !s.validKey
